@@ -147,11 +147,11 @@ func workerMain(args []string) {
 			time.Sleep(250 * time.Millisecond)
 			metrics.Read(sample)
 			if sample[0].Value.Kind() == metrics.KindUint64 && sample[0].Value.Uint64() > 2560<<20 {
-				fmt.Fprintf(os.Stderr, "worker heap exceeds 2.5 GiB in %v\n", current.Load())
+				fmt.Fprintf(os.Stdout, "worker heap exceeds 2.5 GiB in %v\n", current.Load())
 				os.Exit(4)
 			}
 			if tick%20 == 0 && time.Now().Unix()-atomic.LoadInt64(&progress) > 120 {
-				fmt.Fprintf(os.Stderr, "worker stalled for >120s in %v\n", current.Load())
+				fmt.Fprintf(os.Stdout, "worker stalled for >120s in %v\n", current.Load())
 				os.Exit(4)
 			}
 		}
